@@ -216,6 +216,25 @@ fn check_values_explainable(r: &Runner, out: &mut Outcome, ctx: &str, before: &B
                 continue;
             }
         }
+        if let Some(e) = faulted {
+            // a single transient fault on an entry that this load reads several times (owned nested loads re-read):
+            // the value in which exactly the n-th of those reads failed
+            let mut ok = false;
+            for n in 0..12 {
+                r.world.src.faults().model_unreadable_nth = Some((e.clone(), n, 0));
+                let f = r.world.fresh(key.0, &key.1);
+                let seen = r.world.src.faults().model_unreadable_nth.take().map_or(0, |x| x.2);
+                if let Fresh::Ok(v) = f {
+                    ok |= hot::strip_untracked(&v) == cached;
+                }
+                if ok || seen <= n {
+                    break;
+                }
+            }
+            if ok {
+                continue;
+            }
+        }
         if hot::explained_by_d11(r, &key, deps_before, &deps_now, &grew) {
             // known finding D11 (reported under C05): not a containment problem
             out.excluded += 1;
